@@ -126,6 +126,7 @@ func TestCheck(t *testing.T) {
 		o.PDir = 0.2 + r.Float64()*0.3
 		o.KeepPlainLeaf = true
 		o.UnionSecondFragment = true
+		o.UnionSelfFragment = true
 		o.PNamed = 0.2
 		o.PDupAlias = 0.25
 		o.MaxDepth = 3 + r.Intn(3)
